@@ -1314,7 +1314,10 @@ Module FlexTrees.
   Proof. intros. reflexivity. Qed.
   Print Assumptions C04_flex_floor_form.
 
-  (* EXACT: scaling every length of the container's style, of its children's styles, of the input AND the floor by k > 0 scales every
+  (* COUNTERFACTUAL (audit 7b): the right-hand side `flex_alg_t tau'` with tau' = k * tau is NOT the implementation's function unless k = 1
+     (the source's floor is the constant 1.0; no runner executes flex_alg_t for tau <> one) -- this is a lemma about the model that locates
+     the defect, used at tau = tau' (C04_flex_algorithm_homogeneous_partial, C04_blockflex_engine_partial) and at k = 1 (C12), not the
+     property.  As such it is exact: scaling every length of the container's style, of its children's styles, of the input AND the floor by k > 0 scales every
      query the algorithm issues, every layout it stores and its result by k, given scaled answers.  No premise on styles, inputs or answers
      (NaN and infinities included); the floor only has to be positive. *)
   Theorem C04_flex_algorithm_floor_as_length : forall k tau tau', 0 < k -> sc k tau tau' -> gtb tau zero = true ->
@@ -1373,7 +1376,8 @@ Module FlexTrees.
   Proof. intros k tau tau' Hk. exact (bfn_algo_homog_real k Hk tau tau'). Qed.
   Print Assumptions C04_blockflex_algorithm_floor_as_length.
 
-  (* EXACT, no premise on the tree: the conclusion of C04_engine (any related trees -- caches and stored layouts included, e.g. both fresh --,
+  (* COUNTERFACTUAL like C04_flex_algorithm_floor_as_length (the engine with floor k * tau is not the implementation's for k <> 1); no premise
+     on the tree: the conclusion of C04_engine (any related trees -- caches and stored layouts included, e.g. both fresh --,
      related inputs, same fuel: both evaluations fail or both return, related outputs and related trees: EVERY stored layout and cache entry
      scaled) for the engine with floor tau on the tree and the engine with floor k * tau on the scaled tree *)
   Theorem C04_blockflex_engine_floor_as_length : forall k tau tau', 0 < k -> sc k tau tau' -> gtb tau zero = true ->
